@@ -64,6 +64,8 @@ func (s *c13Sink) Close() error                                { return nil }
 
 type c13Env struct {
 	fileA, fileB string
+	fileMissing  string // does not exist
+	fileTrunc    string // a valid file cut in the middle of a table (what a reload sees while the file is being rewritten)
 	met          *metrics.Metrics
 }
 
@@ -74,6 +76,12 @@ func c13Setup(t *testing.T) *c13Env {
 		t.Fatal(err)
 	}
 	if err := os.WriteFile(e.fileB, []byte(fmt.Sprintf(c13FileTmpl, c13B4, c13B6, c13B4)), 0o644); err != nil {
+		t.Fatal(err)
+	}
+	e.fileMissing = filepath.Join(dir, "c13_subnets_missing.toml")
+	e.fileTrunc = filepath.Join(dir, "c13_subnets_truncated.toml")
+	full := fmt.Sprintf(c13FileTmpl, c13B4, c13B6, c13B4)
+	if err := os.WriteFile(e.fileTrunc, []byte(full[:len(full)*2/3]+"\n            Subnets = [\"10."), 0o644); err != nil {
 		t.Fatal(err)
 	}
 	lg := logrus.New()
@@ -146,6 +154,7 @@ type c13Task struct {
 	resp   *pb.RegistrationResponse
 	err    error
 	kind   string
+	panic  string // recovered panic of the request, if any
 }
 
 // waitSettled waits until the task is done or its goroutine is blocked in a synchronisation wait.
@@ -233,7 +242,8 @@ func TestVerifC13Schedules(t *testing.T) {
 	type scenario struct {
 		reqKinds []string
 		reloads  int
-		order    []int // permutation of events: 0..k-1 = release request i, k.. = start reload j
+		order    []int  // permutation of events: 0..k-1 = release request i, k.. = start reload j
+		bad      []bool // reload j reads a missing / truncated file (it must fail and change nothing)
 	}
 	var scenarios []scenario
 	maxK := kit.Tier(2, 3)
@@ -252,15 +262,21 @@ func TestVerifC13Schedules(t *testing.T) {
 		for m := 1; m <= 2; m++ {
 			for _, c := range combos {
 				for _, p := range c13Perms(k + m) {
-					scenarios = append(scenarios, scenario{c, m, p})
+					for mask := 0; mask < 1<<m; mask++ {
+						bad := make([]bool, m)
+						for j := range bad {
+							bad[j] = mask&(1<<j) != 0
+						}
+						scenarios = append(scenarios, scenario{c, m, p, bad})
+					}
 				}
 			}
 		}
 	}
-	rec.Exhaustive(fmt.Sprintf("every order of {release request i, start reload j} for k=1..%d requests of every kind combination × m=1..2 reloads (%d schedules)", maxK, len(scenarios)))
+	rec.Exhaustive(fmt.Sprintf("every order of {release request i, start reload j} for k=1..%d requests of every kind combination × m=1..2 reloads, each reload of a valid file or of a missing/truncated one (%d schedules); after each schedule one fresh request of every kind", maxK, len(scenarios)))
 	deadlocks, failedReloads := 0, 0
 	for si, sc := range scenarios {
-		label := fmt.Sprintf("requests=%v reloads=%d order=%v", sc.reqKinds, sc.reloads, sc.order)
+		label := fmt.Sprintf("requests=%v reloads=%d order=%v bad=%v", sc.reqKinds, sc.reloads, sc.order, sc.bad)
 		rec.CaseCheap(label)
 		if failedReloads >= 3 {
 			// each failed reload seen so far cost real time (a reload that polls and gives up); three witnesses are enough
@@ -287,6 +303,9 @@ func TestVerifC13Schedules(t *testing.T) {
 				tasks[id] = tk
 				mu.Unlock()
 				defer func() {
+					if r := recover(); r != nil {
+						tk.panic = fmt.Sprint(r)
+					}
 					mu.Lock()
 					delete(tasks, id)
 					mu.Unlock()
@@ -306,6 +325,8 @@ func TestVerifC13Schedules(t *testing.T) {
 		}
 		var reloads []*c13Task
 		var trace []string
+		goodStarted := 0
+		var goodSets []string // sets published by the valid reloads of this schedule, in start order
 		for _, ev := range sc.order {
 			if ev < k {
 				tk := reqs[ev]
@@ -313,11 +334,20 @@ func TestVerifC13Schedules(t *testing.T) {
 				trace = append(trace, tk.name+"→"+tk.waitSettled(30*time.Second))
 			} else {
 				j := ev - k
-				file := env.fileB
-				if j%2 == 1 {
-					file = env.fileA
+				var file string
+				switch {
+				case sc.bad[j] && j%2 == 0:
+					file = env.fileMissing
+				case sc.bad[j]:
+					file = env.fileTrunc
+				case goodStarted%2 == 0:
+					file, goodStarted = env.fileB, goodStarted+1
+					goodSets = append(goodSets, "B")
+				default:
+					file, goodStarted = env.fileA, goodStarted+1
+					goodSets = append(goodSets, "A")
 				}
-				tk := &c13Task{name: fmt.Sprintf("reload%d", j), done: make(chan struct{})}
+				tk := &c13Task{name: fmt.Sprintf("reload%d", j), done: make(chan struct{}), kind: map[bool]string{true: "bad", false: "good"}[sc.bad[j]]}
 				reloads = append(reloads, tk)
 				go func() {
 					tk.gid.Store(kit.GoID())
@@ -376,6 +406,10 @@ func TestVerifC13Schedules(t *testing.T) {
 					}
 					continue
 				}
+				if tk.panic != "" {
+					rec.Violation("request-panicked:"+tk.kind, "a request panicked while subnets were being reloaded", map[string]interface{}{"schedule": label, "trace": trace, "request": tk.name, "panic": tk.panic})
+					continue
+				}
 				if tk.err != nil {
 					rec.Violation("request-failed", "a well-formed request failed while subnets were being reloaded", map[string]interface{}{"schedule": label, "request": tk.name, "err": tk.err.Error()})
 					continue
@@ -386,9 +420,57 @@ func TestVerifC13Schedules(t *testing.T) {
 				}
 			}
 			for _, tk := range reloads {
+				if tk.kind == "bad" {
+					if tk.err == nil {
+						rec.Count("bad_reloads_that_reported_success", 1) // not judged by itself; what it left behind is judged below
+					} else {
+						rec.Count("bad_reloads_refused", 1)
+					}
+					continue
+				}
 				if tk.err != nil {
 					failedReloads++
 					rec.Violation("reload-failed", "a reload of a valid subnet file failed", map[string]interface{}{"schedule": label, "err": tk.err.Error()})
+				}
+			}
+			// afterwards: one fresh request of every kind must be answered from a set that a *valid* reload of this
+			// schedule published (or from the initial set when there was none) - whatever the failed reloads did
+			allowed := map[string]bool{}
+			switch len(goodSets) {
+			case 0:
+				allowed["A"] = true
+			case 1:
+				allowed[goodSets[0]] = true
+			default: // two valid reloads may take the write lock in either order
+				for _, gs := range goodSets {
+					allowed[gs] = true
+				}
+			}
+			for _, kd := range []string{"v4", "v6", "dual"} {
+				secret := make([]byte, 32)
+				rng.Read(secret)
+				var resp *pb.RegistrationResponse
+				var err error
+				pan := ""
+				func() {
+					defer func() {
+						if r := recover(); r != nil {
+							pan = fmt.Sprint(r)
+						}
+					}()
+					resp, err = p.RegisterBidirectional(c13Request(kd, secret), pb.RegistrationSource_BidirectionalAPI, []byte{203, 0, 113, 5})
+				}()
+				rec.Count("requests_after_the_schedule", 1)
+				switch {
+				case pan != "":
+					rec.Violation("request-panicked-after-reloads:"+kd, "a request issued after the reloads of a schedule panicked", map[string]interface{}{"schedule": label, "trace": trace, "panic": pan})
+				case err != nil:
+					rec.Violation("request-failed-after-reloads:"+kd, "a well-formed request issued after the reloads of a schedule failed", map[string]interface{}{"schedule": label, "trace": trace, "err": err.Error()})
+				default:
+					if c := c13Classify(kd, resp); !allowed[c] {
+						rec.Violation("stale-or-foreign-set-after-reloads:"+kd, "a request issued after all reloads completed is not answered from the set the valid reload(s) published",
+							map[string]interface{}{"schedule": label, "trace": trace, "class": c, "published_by_valid_reloads": goodSets})
+					}
 				}
 			}
 		}
@@ -434,8 +516,20 @@ func TestVerifC13Stress(t *testing.T) {
 				kind := kinds[(i+g)%4]
 				secret := make([]byte, 32)
 				rng.Read(secret)
-				resp, err := p.RegisterBidirectional(c13Request(kind, secret), pb.RegistrationSource_BidirectionalAPI, []byte{203, 0, 113, 5})
-				if kind == "v6fail" {
+				var resp *pb.RegistrationResponse
+				var err error
+				pan := ""
+				func() {
+					defer func() {
+						if r := recover(); r != nil {
+							pan = fmt.Sprint(r)
+						}
+					}()
+					resp, err = p.RegisterBidirectional(c13Request(kind, secret), pb.RegistrationSource_BidirectionalAPI, []byte{203, 0, 113, 5})
+				}()
+				if pan != "" {
+					rec.Violation("request-panicked:"+kind, "a request panicked while subnets were being reloaded", map[string]interface{}{"panic": pan, "kind": kind})
+				} else if kind == "v6fail" {
 					if err == nil {
 						rec.Violation("unanswerable-request-succeeded", "a request for a generation without IPv6 subnets got an IPv6 phantom", nil)
 					}
@@ -453,7 +547,8 @@ func TestVerifC13Stress(t *testing.T) {
 			}
 		}(g)
 	}
-	var reloadsDone atomic.Int64
+	var reloadsDone, badReloads atomic.Int64
+	var relMu sync.RWMutex // harness only: keeps the process-wide location variable consistent during serialised blocks
 	for g := 0; g < reloaders; g++ {
 		wg.Add(1)
 		go func(g int) {
@@ -464,8 +559,32 @@ func TestVerifC13Stress(t *testing.T) {
 				if (i+g)%2 == 0 {
 					f = env.fileB
 				}
+				// every other block of 50 reloads is serialised (as the registrar's single SIGHUP goroutine does) and mixes in
+				// reloads of a missing / truncated file, which must fail and change nothing; the location is a process-wide
+				// environment variable, so unserialised reloaders may only use valid files
+				serial := (i/50)%2 == 1
+				bad := false
+				if serial {
+					relMu.Lock()
+					switch {
+					case g == 0 && i%4 == 1:
+						f, bad = env.fileMissing, true
+					case g == 0 && i%4 == 3:
+						f, bad = env.fileTrunc, true
+					}
+				} else {
+					relMu.RLock()
+				}
 				os.Setenv("PHANTOM_SUBNET_LOCATION", f)
-				if err := p.ReloadSubnets(); err != nil {
+				err := p.ReloadSubnets()
+				if serial {
+					relMu.Unlock()
+				} else {
+					relMu.RUnlock()
+				}
+				if bad {
+					badReloads.Add(1)
+				} else if err != nil {
 					rec.Violation("reload-failed", "a reload of a valid subnet file failed", map[string]interface{}{"err": err.Error()})
 				}
 				reloadsDone.Add(1)
@@ -480,6 +599,7 @@ func TestVerifC13Stress(t *testing.T) {
 		select {
 		case <-fin:
 			rec.Count("reloads", int(reloadsDone.Load()))
+			rec.Count("reloads_of_missing_or_truncated_files", int(badReloads.Load()))
 			return
 		case <-time.After(250 * time.Millisecond):
 		}
